@@ -101,4 +101,48 @@ example : critical 31 = true ∧ critical 32 = false ∧ critical 33 = true ∧ 
 -- non-vacuity: a nested ordered struct, a sequence of structs, a map, a bool and an optional time
 example : wfFields exFields = true ∧ validVs exFields exVal = true := by decide
 
+/-! ## non-vacuity with a PRESENT SignatureValue on an ordered model whose LAST declared field is the
+       signature (the shape of Data: Name, Content, SignatureValue) — the signing path, where the
+       caller supplies the signature bytes and the encoder writes `T L value` for them -/
+
+def sigFields : Fields := .cons 7 .name (.cons 21 .wire (.cons 23 .signature .nil))
+def sigSchema : Schema := ⟨"SigEx", true, sigFields⟩
+/-- name `/a`, content `[1]`, signature `[9, 9]` -/
+def sigVal : Vals := .cons (.name [⟨8, [97]⟩]) (.cons (.bytes [1]) (.cons (.bytes [9, 9]) .nil))
+/-- the encoding of `sigVal` followed by the unknown non-critical element `240 2 [1 2]` -/
+def sigJunkAfter : Bytes := [7, 3, 8, 1, 97, 21, 1, 1, 23, 2, 9, 9, 240, 2, 1, 2]
+/-- the same with the unknown CRITICAL element `241 2 [1 2]` -/
+def sigCritAfter : Bytes := [7, 3, 8, 1, 97, 21, 1, 1, 23, 2, 9, 9, 241, 2, 1, 2]
+
+example : wfSchema sigSchema = true ∧ validVs sigSchema.fields sigVal = true := by decide
+-- the signature IS written and announced: 5 + 3 + 4 bytes
+example : encode sigSchema sigVal = [7, 3, 8, 1, 97, 21, 1, 1, 23, 2, 9, 9] ∧ encLen sigSchema sigVal = 12 := by
+  decide
+-- boundary 3 = after the last declared field (the SignatureValue)
+example : insAt sigSchema.fields sigVal [] 3 (tlv 240 [1, 2]) = some sigJunkAfter := by decide
+example : insAt sigSchema.fields sigVal [] 3 (tlv 241 [1, 2]) = some sigCritAfter := by decide
+
+/-- `parse_encode` with a present signature -/
+example : ∃ a, parse sigSchema false (encode sigSchema sigVal) = .ok sigVal a :=
+  parse_encode sigSchema sigVal false (by decide) (by decide)
+
+/-- `unknown_noncritical_skipped` instantiated: junk after the SignatureValue of an ordered model -/
+example : ∃ a, parse sigSchema false sigJunkAfter = .ok sigVal a :=
+  unknown_noncritical_skipped sigSchema sigVal false [] 3 240 [1, 2] sigJunkAfter
+    (by decide) (by decide) (by decide) (by decide) (by decide) (Or.inr (by decide)) (by decide)
+
+/-- `unknown_critical_rejected_unless_ignored` instantiated at the same position -/
+example : (∃ a, parse sigSchema false sigCritAfter = .err a) ∧ (∃ a, parse sigSchema true sigCritAfter = .ok sigVal a) :=
+  unknown_critical_rejected_unless_ignored sigSchema sigVal [] 3 241 [1, 2] sigCritAfter
+    (by decide) (by decide) (by decide) (by decide) (by decide) (by decide) (by decide)
+
+/-- and what evaluation of the model gives on those concrete byte strings -/
+example : ∃ a, parse sigSchema false sigJunkAfter = .ok sigVal a := ⟨_, rfl⟩
+example : ∃ a, parse sigSchema false sigCritAfter = .err a := ⟨_, rfl⟩
+example : ∃ a, parse sigSchema true sigCritAfter = .ok sigVal a := ⟨_, rfl⟩
+-- also at every other boundary of the signed encoding (before the name, the content, the signature)
+example : ([0, 1, 2, 3].map fun k =>
+      (insAt sigSchema.fields sigVal [] k (tlv 240 [1, 2])).bind fun b => (parse sigSchema false b).val?)
+    = [some sigVal, some sigVal, some sigVal, some sigVal] := rfl
+
 end Ndn.C13
